@@ -118,27 +118,29 @@ Definition contains (p q : period) : bool :=
   date_leb (p_start p) (p_start q) && date_leb (stop q) (stop p).
 
 (** Period.intersection(start, stop) *)
+Definition intersection_core (p : period) (a' b' : date) : option period :=
+  let ps := p_start p in
+  let pe := stop p in
+  if date_ltb b' ps || date_ltb pe a' then None
+  else
+    let is_ := date_max ps a' in
+    let ie := date_min pe b' in
+    if date_eqb is_ ps && date_eqb ie pe then Some p
+    else
+      let '(sy, sm, sd) := is_ in
+      let '(ey, em, ed) := ie in
+      if (sd =? 1) && (sm =? 1) && (ed =? 31) && (em =? 12)
+      then Some (Year, is_, ey - sy + 1)
+      else if (sd =? 1) && (ed =? dim ey em)
+      then Some (Month, is_, (ey - sy) * 12 + em - sm + 1)
+      else Some (Day, is_, ord ie - ord is_ + 1).
+
 Definition intersection (p : period) (a b : option date) : option period :=
   match a, b with
   | None, None => Some p
   | _, _ =>
-      let ps := p_start p in
-      let pe := stop p in
-      let a' := match a with Some x => x | None => ps end in
-      let b' := match b with Some x => x | None => pe end in
-      if date_ltb b' ps || date_ltb pe a' then None
-      else
-        let is_ := date_max ps a' in
-        let ie := date_min pe b' in
-        if date_eqb is_ ps && date_eqb ie pe then Some p
-        else
-          let '(sy, sm, sd) := is_ in
-          let '(ey, em, ed) := ie in
-          if (sd =? 1) && (sm =? 1) && (ed =? 31) && (em =? 12)
-          then Some (Year, is_, ey - sy + 1)
-          else if (sd =? 1) && (ed =? dim ey em)
-          then Some (Month, is_, (ey - sy) * 12 + em - sm + 1)
-          else Some (Day, is_, ord ie - ord is_ + 1)
+      intersection_core p (match a with Some x => x | None => p_start p end)
+                          (match b with Some x => x | None => stop p end)
   end.
 
 (** Named reference periods *)
